@@ -48,6 +48,13 @@ def base_plan(rng, prop, clauses, adapter, T=None):
     T = T or rng.choice([12, 20, 30, 45])
     e = env_cfg(rng, adapter, T)
     cfg = ad.cfg(rng, e, T)
+    if rng.random() < 0.5 and len(e["script"]) >= 3:
+        # half of the plans meet every kind of episode end early (short runs must see termination, truncation AND both at once)
+        kinds = ["term", "trunc", "both"]
+        rng.shuffle(kinds)
+        for ep, k in zip(e["script"], kinds):
+            ep["end"] = k
+            ep["len"] = min(ep["len"], rng.choice([1, 2, 3, 4]))
     if ad.vector:
         e["scripts"] = [make_script(rng, T) for _ in range(cfg["num_envs"])]
         for i, sc in enumerate(e["scripts"]):
